@@ -177,6 +177,9 @@ def _cutoff(repo, out):
     with open(os.path.join(repo, "sktime/forecasting/base/_sktime.py")) as f:
         mod = ast.parse(f.read())
     cls = find(mod, "_SktimeForecaster")
+    # private helpers are inlined wherever they live; these hooks are the roles the pins talk about
+    scope = C.Scope(cls=cls, mod=mod, repo=repo,
+                    keep={"_set_cutoff", "_update_y_X", "_set_y_X", "_set_fh", "_predict", "_update_X"})
 
     def checked(e, what):
         """e = check_y_X(y, X, allow_empty=<bool>, ...): returns the flag"""
@@ -197,7 +200,7 @@ def _cutoff(repo, out):
     # _set_y_X: (self._y, self._X) = check_y_X(y, X, allow_empty=False); self._set_cutoff(y.index[k])
     fn = find(cls, "_set_y_X")
     _need(argnames(fn)[:3] == ["self", "y", "X"], "_set_y_X signature")
-    effs, leaf = select(C.of(fn), _decider({}), "_set_y_X")
+    effs, leaf = select(C.of(fn, scope), _decider({}), "_set_y_X")
     _need(leaf[0] in ("END", "RET") and (leaf[0] == "END" or leaf[1] is None) and len(effs) == 2
           and all(e[0] == "EFF" for e in effs), "_set_y_X: store the checked data, set the cutoff")
     a = effs[0][1]
@@ -246,6 +249,10 @@ def _cutoff(repo, out):
             g = len_test(t[1])
             if g is not None:
                 return "(if %s then %s else %s)" % (g, effect(t[2], merged, pos), effect(t[3], merged, pos))
+            if C.only_raises(t[2]) and not C.only_raises(t[3]):       # a validation of the arguments
+                return effect(t[3], merged, pos)
+            if C.only_raises(t[3]) and not C.only_raises(t[2]):
+                return effect(t[2], merged, pos)
             a, b = effect(t[2], merged, pos), effect(t[3], merged, pos)   # the test is about X only
             _need(a == b, "_update_y_X: the handling of X changes what happens to y")
             return a
@@ -270,7 +277,7 @@ def _cutoff(repo, out):
             return "(Some %s)" % pos
         _need(not merged and pos is None, "_update_y_X: data merged without moving the cutoff (or vice versa)")
         return "None"
-    body = effect(C.of(fn), False, None)
+    body = effect(C.of(fn, scope), False, None)
     _need(flags and all(flags), "_update_y_X must accept an empty batch (allow_empty=True)")
     out.append("Definition gen_update_allow_empty : bool := true.\n")
     out.append("(* _update_y_X on a batch of k observations: Some p = the batch is merged into the remembered\n"
@@ -296,8 +303,8 @@ def _cutoff(repo, out):
 
     def texts(effs):
         return [" ".join(_u(e[1]).split()) for e in effs if not _u(e[1]).startswith("warn(")]
-    e0, l0 = select(C.of(fn), _decider({"update_params": False}), "update")
-    e1, l1 = select(C.of(fn), _decider({"update_params": True}), "update")
+    e0, l0 = select(C.of(fn, scope), _decider({"update_params": False}), "update")
+    e1, l1 = select(C.of(fn, scope), _decider({"update_params": True}), "update")
     _need(texts(e0) == ["self.check_is_fitted()", "self._update_y_X(y, X)"] and l0[0] == "RET" and _u(l0[1]) == "self",
           "update(update_params=False): check_is_fitted; _update_y_X(y, X); return self")
     _need(texts(e1) == ["self.check_is_fitted()", "self._update_y_X(y, X)", "self._is_fitted = False",
@@ -309,7 +316,7 @@ def _cutoff(repo, out):
                "Definition gen_refit_needs_horizon : bool := false.\n")
     fn = find(cls, "predict")
     _need(argnames(fn)[:2] == ["self", "fh"], "predict signature")
-    e, l = select(C.of(fn), _decider({}), "predict")
+    e, l = select(C.of(fn, scope), _decider({}), "predict")
     _need(texts(e) == ["self.check_is_fitted()", "self._set_fh(fh)"] and l[0] == "RET" and isinstance(l[1], ast.Call)
           and _u(l[1].func) == "self._predict" and l[1].args and _u(l[1].args[0]) == "self.fh",
           "predict: check_is_fitted; _set_fh(fh); return self._predict(self.fh, ...)")
